@@ -686,9 +686,25 @@ def _taper(f, c0, c1):
     return (1.0 - np.cos(np.pi * t)) / 2.0
 
 
+def _num(ctx, r, shape, kind, what):
+    """what the code under test returned as a float64 copy of the expected shape, or None (finding reported)"""
+    try:
+        a = np.asarray(r)
+        ok = a.shape == tuple(shape) and a.dtype.kind in "fiu"
+    except Exception:  # noqa
+        a, ok = None, False
+    if not ctx.check(ok, kind, lambda: f"{what}: returned {type(r).__name__} shape {np.shape(r)} dtype "
+                                       f"{getattr(r, 'dtype', None)}, expected a real array of shape {tuple(shape)}"):
+        return None
+    return a.astype(np.float64)
+
+
 def _run_spec(case, ctx):
     F = sut.fourier()
     n, si = case["n"], case["si"]
+    lay, ro, rep = case.get("lay", "C"), bool(case.get("ro", False)), case.get("rep", 0)
+    dt, spk = case.get("dt", "f8"), case.get("spk", "c16")
+    nk, sik, omit = case.get("nk", "int"), case.get("sik", "float"), bool(case.get("omit", False))
     rng = np.random.default_rng(case["seed"])
     if case["basis"]:
         shape = [n, n]
@@ -705,9 +721,18 @@ def _run_spec(case, ctx):
         axarg, axlabel = pos - ndim, "axis_neg"
     else:
         axarg, axlabel = pos, "axis_pos"
+    # the axis option in its default form (left out) or passed; lengths and the sampling interval as the scalar types callers hold
+    akw = {} if (axarg is None and omit) else {"axis": axarg}
+    n_arg = _int_kind(n, nk)
+    si_arg = np.float64(si) if sik == "npf" else int(si) if (sik == "int" and float(si).is_integer()) else si
     prime = _is_prime(n)
     ctx.label(f"ndim{ndim}", f"axis{pos}of{ndim}", axlabel, "n_even" if n % 2 == 0 else "n_odd",
-              "n<=300" if n <= 300 else "n>300")
+              "n<=300" if n <= 300 else "n>300", "spec_lay_" + lay, "spec_" + dt, "spec_spectrum_" + spk, f"spec_rep{rep}",
+              "spec_n_" + nk, "spec_si_" + type(si_arg).__name__)
+    if ro:
+        ctx.label("spec_readonly")
+    if not akw:
+        ctx.label("axis_omitted")
     if prime:
         ctx.label("n_prime")
         ctx.nontrivial = True
@@ -725,22 +750,56 @@ def _run_spec(case, ctx):
     ref2 = ks / (n * si)
     ref1 = np.arange(nh) / (n * si)
     for one_sided, ref in ((False, ref2), (True, ref1)):
-        got = ctx.call("C18.fscale", F.fscale, n, si, one_sided=one_sided)
-        if got is ctx.CRASH:
-            continue
-        got = np.asarray(got)
-        if ctx.check(got.shape == ref.shape, "C18.fscale", lambda: f"fscale({n}, one_sided={one_sided}) has shape "
-                                                                   f"{got.shape}, expected {ref.shape}"):
-            rel = float(np.max(np.abs(got - ref) / np.maximum(np.abs(ref), 1e-300)))
-            ctx.stat("fscale_relerr", rel)
-            ctx.check(rel <= FSCALE_RTOL, "C18.fscale", lambda: f"fscale({n}, si={si}, one_sided={one_sided}) differs "
-                      f"from k/(n si) with positive Nyquist: first bad index "
-                      f"{int(np.argmax(np.abs(got - ref) > FSCALE_RTOL * np.abs(ref)))}")
+        for it in range(2 if rep else 1):
+            which = "first call" if it == 0 else "second call, after the caller overwrote the first result in place"
+            if it == 0:
+                got = ctx.call("C18.fscale", F.fscale, n_arg, si_arg, one_sided=one_sided)
+            else:
+                got = ctx.call("C18.fscale", F.fscale, n_arg, si_arg, one_sided)
+            if got is ctx.CRASH:
+                break
+            res = got
+            got = np.asarray(got)
+            if ctx.check(got.shape == ref.shape and got.dtype.kind == "f", "C18.fscale",
+                         lambda: f"fscale({n}, one_sided={one_sided}) has shape {got.shape} dtype {got.dtype}, expected "
+                                 f"{ref.shape} float"):
+                rel = float(np.max(np.abs(got - ref) / np.maximum(np.abs(ref), 1e-300)))
+                ctx.stat("fscale_relerr", rel)
+                ctx.check(rel <= FSCALE_RTOL, "C18.fscale", lambda: f"fscale({n_arg!r}, si={si_arg!r}, one_sided={one_sided}) "
+                          f"differs from k/(n si) with positive Nyquist: first bad index "
+                          f"{int(np.argmax(~(np.abs(got - ref) <= FSCALE_RTOL * np.abs(ref))))} ({which})")
+            if isinstance(res, np.ndarray):
+                # voltage.fk: kscale = fscale(nxp, dx); kscale[0] = 1e-6
+                ctx.check(res.flags.writeable, "C18.fscale_result_readonly", "fscale returned a read-only array (fk assigns "
+                                                                             "to its first element)")
+                _scribble(res)
     if si != 1.0 and n <= 300:
-        got = ctx.call("C18.fscale", F.fscale, n)
+        got = ctx.call("C18.fscale", F.fscale, n_arg)
         if got is not ctx.CRASH:
             ctx.check(np.shape(got) == (n,) and np.allclose(got, ks / n, rtol=FSCALE_RTOL, atol=0), "C18.fscale",
                       lambda: f"fscale({n}) with the default sampling interval differs from k/n")
+
+    # (a') the response vector behind lp / hp / bp (voltage.fk calls it with the btype of the user: 'highpass', 'lowpass')
+    typ = case.get("typ")
+    if typ is not None:
+        fn = 0.5 / si
+        c0, c1 = [v / 1000.0 * fn for v in case["corners"][0:2]]
+        fvec = ref1 if case["seed"] % 2 == 0 else np.abs(ref2)  # one-sided (filters) or |two-sided scale| (fk)
+        fin = _lay(fvec, "C", ro)
+        B = _box([c0, c1], case.get("bk", "list"))
+        ctx.label("freq_vector_typ_" + (typ or "default"))
+        v = ctx.call("C18.freq_vector", F._freq_vector, fin, B, **({"typ": typ} if typ else {}))
+        if v is not ctx.CRASH:
+            v = _num(ctx, v, fvec.shape, "C18.freq_vector", f"_freq_vector(f, b, typ={typ or 'default'!r})")
+            if v is not None:
+                tap = _taper(fvec, c0, c1)
+                exp = tap if typ.lower() in ("hp", "highpass") else 1.0 - tap
+                err = float(np.max(np.abs(v - exp)))
+                ctx.check(err <= COS_TOL, "C18.freq_vector", lambda: f"_freq_vector with typ={typ or 'default (lp)'!r} differs "
+                          f"from the {'' if typ.lower() in ('hp', 'highpass') else '1 - '}cosine taper between {c0}, {c1} Hz "
+                          f"by {err:.3g} (n={n}, si={si})")
+        ctx.check(_same(fin, fvec) and _same(B, [c0, c1]), "C18.freq_vector_input_mutated",
+                  "_freq_vector modified its frequency vector or its corners")
 
     # (b) half-spectrum reduction / expansion
     hshape = list(shape)
@@ -752,23 +811,54 @@ def _run_spec(case, ctx):
     if n % 2 == 0:
         sl[pos] = n // 2
         S[tuple(sl)] = S[tuple(sl)].real
+    if spk == "c8":
+        S = S.astype(np.complex64)
+    elif spk in ("f8", "f4"):
+        S = np.ascontiguousarray(S.real).astype(NPDT[spk])  # real spectra: fit_phase reduces a frequency scale, _freq_filter
+        #                                                     expands a real response
     mirror = n - np.arange(nh, n)  # full[k] = conj(S[n - k]) for k = nh .. n-1
     full = np.concatenate([S, np.conj(np.take(S, mirror, axis=pos))], axis=pos)
-    r = ctx.call("C18.freduce", F.freduce, full, axis=axarg)
-    if r is not ctx.CRASH:
-        ctx.check(np.shape(r) == S.shape and np.array_equal(r, S), "C18.freduce",
-                  lambda: f"freduce of a Hermitian spectrum of length {n} along axis {axarg} of shape {full.shape} is not "
-                          f"its first n//2+1 bins (got shape {np.shape(r)})")
-    e = ctx.call("C18.fexpand", F.fexpand, S, n, axis=axarg)
-    if e is not ctx.CRASH:
-        ctx.check(np.shape(e) == full.shape and np.array_equal(e, full), "C18.fexpand",
-                  lambda: f"fexpand(half spectrum, ns={n}, axis={axarg}) is not the Hermitian spectrum (shape "
-                          f"{np.shape(e)}, expected {full.shape})")
+    full_in, S_in = _lay(full, lay, ro), _lay(S, lay, ro)
+    for it in range(2 if rep else 1):
+        which = "first call" if it == 0 else "second call with the same argument object"
+        r = ctx.call("C18.freduce", F.freduce, full_in, **akw)
+        if r is not ctx.CRASH:
+            ctx.check(np.shape(r) == S.shape and np.array_equal(r, S), "C18.freduce",
+                      lambda: f"freduce of a Hermitian spectrum of length {n} along axis {axarg} of shape {full.shape} "
+                              f"({full.dtype}, layout {lay}) is not its first n//2+1 bins (got shape {np.shape(r)}; {which})")
+        if it == 0:
+            e = ctx.call("C18.fexpand", F.fexpand, S_in, n_arg, **akw)
+        else:
+            e = ctx.call("C18.fexpand", F.fexpand, S_in, ns=n_arg, **akw)
+        if e is not ctx.CRASH:
+            ctx.check(np.shape(e) == full.shape and np.array_equal(e, full), "C18.fexpand",
+                      lambda: f"fexpand(half spectrum {S.dtype} layout {lay}, ns={n}, axis={axarg}) is not the Hermitian "
+                              f"spectrum (shape {np.shape(e)}, expected {full.shape}; {which})")
+        if rep == 2:
+            _scribble(r)
+            _scribble(e)
+    if n == 1:
+        e = ctx.call("C18.fexpand", F.fexpand, S_in, **akw)  # ns at its default of 1
+        if e is not ctx.CRASH:
+            ctx.check(np.shape(e) == S.shape and np.array_equal(e, S), "C18.fexpand",
+                      "fexpand with the default ns=1 does not return the single bin")
+    ctx.check(_same(full_in, full), "C18.freduce_input_mutated", "freduce modified its argument")
+    ctx.check(_same(S_in, S), "C18.fexpand_input_mutated", "fexpand modified its argument")
     x = np.eye(n) if case["basis"] else rng.standard_normal(shape)
+    # the signal in the drawn dtype; x keeps the exact values in float64 for the oracles
+    if dt == "f4":
+        xv = x.astype(np.float32)
+    elif dt == "i2":
+        xv = np.trunc(x * 100).astype(np.int16)
+    else:
+        xv = x
+    x = xv.astype(np.float64)
+    xin = _lay(xv, lay, ro)
     X = np.fft.fft(x, axis=pos)
+    X_in = _lay(X, lay, ro)
 
     def _roundtrip():
-        return F.fexpand(F.freduce(X, axis=axarg), n, axis=axarg)
+        return F.fexpand(F.freduce(X_in, **akw), n_arg, **akw)
     rt = ctx.call("C18.reduce_expand", _roundtrip)
     if rt is not ctx.CRASH:
         if ctx.check(np.shape(rt) == X.shape, "C18.reduce_expand", lambda: f"round trip shape {np.shape(rt)} != {X.shape}"):
@@ -779,102 +869,173 @@ def _run_spec(case, ctx):
                       lambda: f"fexpand(freduce(fft(x))) differs from fft(x) by {err:.3g} x |fft x|_2 (n={n}, axis={axarg})")
 
     # (c) explicit DFT
-    _check_dft(case, ctx, F, x, X, n, pos, ndim, axarg, rng)
+    _check_dft(case, ctx, F, x, xv, xin, X, n, pos, ndim, axarg, rng)
 
     # (d) filters
     if axarg is None or (axarg >= 0 and (ndim <= 2 or pos >= 1)):
-        _check_filters(case, ctx, F, x, n, si, pos, ndim, axarg)
+        _check_filters(case, ctx, F, x, xin, n, si, si_arg, pos, ndim, axarg, akw)
+    ctx.check(_same(xin, xv), "C18.signal_input_mutated", lambda: f"dft / lp / hp / bp modified the signal argument "
+                                                                  f"({dt}, layout {lay}, n={n}, axis={axarg})")
 
 
-def _check_dft(case, ctx, F, x, X, n, pos, ndim, axarg, rng):
+def _check_dft(case, ctx, F, x, xv, xin, X, n, pos, ndim, axarg, rng):
     dax = -1 if axarg is None else axarg  # dft has no None convention: its default is -1
+    lay, ro, rep, dt = case.get("lay", "C"), bool(case.get("ro", False)), case.get("rep", 0), case.get("dt", "f8")
     lanes = x.size // n
     if n <= 512 and n * n * lanes <= 4_000_000:
-        kscale = None
+        kscale = kin = None
         ctx.label("dft_all_k")
     else:
         ks = {0, 1 % n, n // 2, n - 1, (n // 2 + 1) % n} | {int(v) for v in rng.integers(0, n, 4)}
         kscale = np.array(sorted(ks))
+        kin = _lay(kscale, "C", ro)
         ctx.label("dft_kscale_subset")
-    inputs = [("real", x, np.fft.rfft(x, axis=pos) if kscale is None else np.take(X, kscale, axis=pos))]
-    if case["cplx"]:
+    inputs = [("real", xin, x, np.fft.rfft(x, axis=pos) if kscale is None else np.take(X, kscale, axis=pos))]
+    if case["cplx"] and dt != "i2":
         xc = x + 1j * rng.standard_normal(x.shape)
+        xcv = xc.astype(np.complex64) if dt == "f4" else xc
+        xc = xcv.astype(np.complex128)
         Xc = np.fft.fft(xc, axis=pos)
-        inputs.append(("complex", xc, Xc if kscale is None else np.take(Xc, kscale, axis=pos)))
-    for name, xi, ref in inputs:
-        kw = {} if kscale is None else {"kscale": kscale}
-        if dax == -1 and pos == ndim - 1 and case["seed"] % 2 == 0:
-            got = ctx.call("C18.dft", F.dft, xi, **kw)  # default axis
-        else:
-            got = ctx.call("C18.dft", F.dft, xi, axis=dax, **kw)
-        if got is ctx.CRASH:
-            continue
-        if not ctx.check(np.shape(got) == ref.shape, "C18.dft", lambda: f"dft of {name} x shape {xi.shape} axis {dax}: "
-                                                                       f"shape {np.shape(got)}, expected {ref.shape}"):
-            continue
-        s = np.maximum(np.sum(np.abs(xi), axis=pos, keepdims=True), 1e-300)
-        err = float(np.max(np.abs(got - ref) / s)) / n
-        ctx.stat("dft_err_in_eps", err / EPS["f8"])
-        ctx.check(err <= DFT_TOL_EPS * EPS["f8"], "C18.dft",
-                  lambda: f"dft of {name} x (n={n}, axis={dax}) differs from numpy fft by {err:.3g} x n sum|x|")
-    if ndim == 1 and n <= 512:
+        inputs.append(("complex", _lay(xcv, lay, ro), xc, Xc if kscale is None else np.take(Xc, kscale, axis=pos)))
+    for name, xi, xval, ref in inputs:
+        kw = {} if kscale is None else {"kscale": kin}
+        if not (dax == -1 and pos == ndim - 1 and case["seed"] % 2 == 0):
+            kw["axis"] = dax  # otherwise: default axis
+        s = np.maximum(np.sum(np.abs(xval), axis=pos, keepdims=True), 1e-300)
+        for it in range(2 if (rep and n <= 4096) else 1):
+            which = "first call" if it == 0 else "second call with the same argument objects"
+            if it == 1 and rep == 2:
+                # something else of the same shape went through in between
+                ctx.call("C18.dft", F.dft, _lay((xval + 1.0).astype(xi.dtype), lay, ro), **kw)
+            got = ctx.call("C18.dft", F.dft, xi, **kw)
+            if got is ctx.CRASH:
+                break
+            if not ctx.check(np.shape(got) == ref.shape, "C18.dft", lambda: f"dft of {name} x shape {xi.shape} axis {dax}: "
+                                                                           f"shape {np.shape(got)}, expected {ref.shape}"):
+                break
+            err = float(np.max(np.abs(got - ref) / s)) / n
+            ctx.stat("dft_err_in_eps", err / EPS["f8"])
+            ctx.check(err <= DFT_TOL_EPS * EPS["f8"], "C18.dft",
+                      lambda: f"dft of {name} x ({xi.dtype}, layout {lay}, n={n}, axis={dax}) differs from numpy fft by "
+                              f"{err:.3g} x n sum|x| ({which})")
+            if rep == 2:
+                _scribble(got)
+        ctx.check(_same(xi, xval), "C18.signal_input_mutated", lambda: f"dft modified its {name} argument ({xi.dtype}, {lay})")
+    if kscale is not None:
+        ctx.check(_same(kin, kscale), "C18.dft_scale_mutated", "dft modified kscale")
+    if ndim <= 2 and n <= 512 and n * n * lanes <= 4_000_000 and (ndim == 1 or case.get("lay") is not None):
+        # samples in another order, their positions in xscale (1-D, and along either axis of a matrix)
         perm = rng.permutation(n)
-        got = ctx.call("C18.dft", F.dft, x[perm], xscale=perm)
+        pin = _lay(perm, "C", ro)
+        xp = _lay(np.take(xv, perm, axis=pos), lay, ro)
+        kw = {} if ndim == 1 else {"axis": dax}
+        got = ctx.call("C18.dft", F.dft, xp, xscale=pin, **kw)
         if got is not ctx.CRASH:
-            ref = np.fft.rfft(x)
-            ok = np.shape(got) == ref.shape and float(np.max(np.abs(got - ref))) <= DFT_TOL_EPS * EPS["f8"] * n * max(
-                float(np.sum(np.abs(x))), 1e-300)
-            ctx.check(ok, "C18.dft", lambda: f"dft(x[perm], xscale=perm) differs from rfft(x) (n={n})")
+            ref = np.fft.rfft(x, axis=pos)
+            if ctx.check(np.shape(got) == ref.shape, "C18.dft", lambda: f"dft(x[perm], xscale=perm) has shape {np.shape(got)}, "
+                                                                       f"expected {ref.shape}"):
+                s = np.maximum(np.sum(np.abs(x), axis=pos, keepdims=True), 1e-300)
+                err = float(np.max(np.abs(got - ref) / s)) / n
+                ctx.check(err <= DFT_TOL_EPS * EPS["f8"], "C18.dft",
+                          lambda: f"dft(x[perm], xscale=perm) differs from rfft(x) by {err:.3g} x n sum|x| (n={n}, ndim={ndim}, "
+                                  f"axis={dax})")
+        ctx.check(_same(pin, perm), "C18.dft_scale_mutated", "dft modified xscale")
 
 
-def _check_filters(case, ctx, F, x, n, si, pos, ndim, axarg):
+def _check_filters(case, ctx, F, x, xin, n, si, si_arg, pos, ndim, axarg, akw):
     fn = 0.5 / si
     c = [v / 1000.0 * fn for v in case["corners"]]
-    b_lh, b_hp, b_lp = c[0:2], c[0:2], c[2:4]
-    ctx.label("filters")
+    rep, dt, bk = case.get("rep", 0), case.get("dt", "f8"), case.get("bk", "list")
+    edt = "f4" if dt == "f4" else "f8"  # numpy's FFT of a float32 signal is single precision
+    sfx = "" if edt == "f8" else "_f4"
+    tol = FILT_TOL_EPS * EPS[edt]
+    b_lh = c[0:2]
+    b4 = c[0:4]
+    # the corner containers are built once and passed to every call that uses these corners
+    B_lh, B_lp, B4 = _box(c[0:2], bk), _box(c[2:4], bk), _box(c[0:4], bk)
+    ctx.label("filters", "filter_corners_" + bk)
     norm = np.maximum(np.sqrt(np.sum(x ** 2, axis=pos, keepdims=True)), 1e-300)
 
     def relerr(a, b):
-        return float(np.max(np.abs(a - b) / norm))
+        e = float(np.max(np.abs(a - b) / norm))
+        return e if e == e else float("inf")
 
-    lo = ctx.call("C18.filter", F.lp, x, si, b_lh, axis=axarg)
-    hi = ctx.call("C18.filter", F.hp, x, si, b_lh, axis=axarg)
-    if lo is ctx.CRASH or hi is ctx.CRASH:
+    lo_r = ctx.call("C18.filter", F.lp, xin, si_arg, B_lh, **akw)
+    hi_r = ctx.call("C18.filter", F.hp, xin, si_arg, B_lh, **akw)
+    if lo_r is ctx.CRASH or hi_r is ctx.CRASH:
         return
-    if not ctx.check(np.shape(lo) == x.shape and np.shape(hi) == x.shape, "C18.filter_shape",
-                     lambda: f"lp/hp output shapes {np.shape(lo)}, {np.shape(hi)} for input {x.shape} axis {axarg}"):
+    lo = _num(ctx, lo_r, x.shape, "C18.filter_shape", f"lp of input {x.shape} axis {axarg}")
+    hi = _num(ctx, hi_r, x.shape, "C18.filter_shape", f"hp of input {x.shape} axis {axarg}")
+    if lo is None or hi is None:
         return
     err = relerr(lo + hi, x)
-    ctx.stat("lp_plus_hp_err_in_eps", err / EPS["f8"])
-    ctx.check(err <= FILT_TOL_EPS * EPS["f8"], "C18.lp_plus_hp",
+    ctx.stat("lp_plus_hp_err_in_eps" + sfx, err / EPS[edt])
+    ctx.check(err <= tol, "C18.lp_plus_hp",
               lambda: f"lp + hp with the same corners differs from the input by {err:.3g} x |x|_2 (n={n}, axis={axarg}, "
-                      f"corners {b_lh}, si={si})")
-    b4 = b_hp + b_lp
-    band = ctx.call("C18.filter", F.bp, x, si, b4, axis=axarg)
-    lo2 = ctx.call("C18.filter", F.lp, x, si, b_lp, axis=axarg)
-    if band is not ctx.CRASH and lo2 is not ctx.CRASH:
-        hl = ctx.call("C18.filter", F.hp, lo2, si, b_hp, axis=axarg)
-        lh = ctx.call("C18.filter", F.lp, hi, si, b_lp, axis=axarg)
-        if hl is not ctx.CRASH and lh is not ctx.CRASH and ctx.check(
-                np.shape(band) == x.shape, "C18.filter_shape", lambda: f"bp output shape {np.shape(band)} for {x.shape}"):
-            err = max(relerr(band, hl), relerr(band, lh))
-            ctx.stat("bp_err_in_eps", err / EPS["f8"])
-            ctx.check(err <= FILT_TOL_EPS * EPS["f8"], "C18.bp_product",
-                      lambda: f"bp differs from hp(lp(x)) / lp(hp(x)) by {err:.3g} x |x|_2 (n={n}, axis={axarg}, "
-                              f"corners {b4}, si={si})")
+                      f"corners {b_lh} as {bk}, si={si_arg!r}, signal {dt})")
+    band_r = ctx.call("C18.filter", F.bp, xin, si_arg, B4, **akw)
+    lo2 = ctx.call("C18.filter", F.lp, xin, si_arg, B_lp, **akw)
+    band = None
+    if band_r is not ctx.CRASH and lo2 is not ctx.CRASH:
+        hl = ctx.call("C18.filter", F.hp, lo2, si_arg, B_lh, **akw)
+        lh = ctx.call("C18.filter", F.lp, hi_r, si_arg, B_lp, **akw)
+        if hl is not ctx.CRASH and lh is not ctx.CRASH:
+            band = _num(ctx, band_r, x.shape, "C18.filter_shape", f"bp of input {x.shape} axis {axarg}")
+            hl = _num(ctx, hl, x.shape, "C18.filter_shape", "hp(lp(x))")
+            lh = _num(ctx, lh, x.shape, "C18.filter_shape", "lp(hp(x))")
+            if band is not None and hl is not None and lh is not None:
+                err = max(relerr(band, hl), relerr(band, lh))
+                ctx.stat("bp_err_in_eps" + sfx, err / EPS[edt])
+                ctx.check(err <= tol, "C18.bp_product",
+                          lambda: f"bp differs from hp(lp(x)) / lp(hp(x)) by {err:.3g} x |x|_2 (n={n}, axis={axarg}, "
+                                  f"corners {b4} as {bk}, si={si_arg!r}, signal {dt})")
+    # the wrapper itself: typ at its default (low-pass) and at the two other values
+    if case.get("ff") and n <= 8192:
+        ctx.label("freq_filter_direct")
+        for kw, ref, B, name in (({}, lo, B_lh, "default"), ({"typ": "hp"}, hi, B_lh, "'hp'"), ({"typ": "bp"}, band, B4, "'bp'")):
+            if ref is None:
+                continue
+            r = ctx.call("C18.filter", F._freq_filter, xin, si_arg, B, **akw, **kw)
+            if r is ctx.CRASH:
+                continue
+            r = _num(ctx, r, x.shape, "C18.filter_shape", f"_freq_filter typ={name}")
+            if r is not None:
+                err = relerr(r, ref)
+                ctx.check(err <= tol, "C18.freq_filter_typ", lambda: f"_freq_filter with typ {name} differs from "
+                          f"{'lp' if not kw else kw['typ']} by {err:.3g} x |x|_2 (n={n}, axis={axarg})")
+    # second call with the same argument objects, after the band-pass (and, rep 2, after the caller overwrote its results)
+    if rep:
+        if rep == 2:
+            _scribble(lo_r)
+            _scribble(band_r if band_r is not ctx.CRASH else None)
+        again = ctx.call("C18.filter", F.lp, xin, si_arg, B_lh, **akw)
+        if again is not ctx.CRASH:
+            again = _num(ctx, again, x.shape, "C18.filter_shape", "lp, second call")
+            if again is not None:
+                err = max(relerr(again, lo), relerr(again + hi, x))
+                ctx.check(err <= tol, "C18.filter_repeat", lambda: f"lp called a second time with the same signal, sampling "
+                          f"interval and corner objects differs from its first answer by {err:.3g} x |x|_2 (n={n}, "
+                          f"axis={axarg}, corners {b_lh} as {bk})")
+    ctx.check(_same(B_lh, c[0:2]) and _same(B_lp, c[2:4]) and _same(B4, c[0:4]), "C18.filter_corners_mutated",
+              lambda: f"lp / hp / bp modified the corner frequencies passed as {bk}")
     # frequency response of the low-pass on an impulse at sample 0, against the analytic taper at the DFT bin frequencies
-    if case["basis"] or (ndim == 1 and n <= 8192):
+    # (a response read off a single-precision filtered basis is not held to the double-precision tolerance)
+    if (case["basis"] and edt == "f8") or (not case["basis"] and ndim == 1 and n <= 8192):
         if case["basis"]:
             idx = [slice(None)] * 2
             idx[1 - pos] = 0
-            h = np.asarray(lo)[tuple(idx)]
-            hh = np.asarray(hi)[tuple(idx)]
+            h = lo[tuple(idx)]
+            hh = hi[tuple(idx)]
         else:
             d = np.zeros(n)
             d[0] = 1.0
-            h = ctx.call("C18.filter", F.lp, d, si, b_lh, axis=axarg)
-            hh = ctx.call("C18.filter", F.hp, d, si, b_lh, axis=axarg)
-            if h is ctx.CRASH or hh is ctx.CRASH or np.shape(h) != (n,) or np.shape(hh) != (n,):
+            h = ctx.call("C18.filter", F.lp, d, si_arg, B_lh, **akw)
+            hh = ctx.call("C18.filter", F.hp, d, si_arg, B_lh, **akw)
+            if h is ctx.CRASH or hh is ctx.CRASH:
+                return
+            h = _num(ctx, h, (n,), "C18.filter_shape", "lp of an impulse")
+            hh = _num(ctx, hh, (n,), "C18.filter_shape", "hp of an impulse")
+            if h is None or hh is None:
                 return
         ctx.label("filter_response")
         kk = np.arange(n)
@@ -883,6 +1044,7 @@ def _check_filters(case, ctx, F, x, n, si, pos, ndim, axarg):
         H = np.fft.fft(h)
         Hh = np.fft.fft(hh)
         err = max(float(np.max(np.abs(H - (1.0 - tap)))), float(np.max(np.abs(Hh - tap))))
+        err = err if err == err else float("inf")
         ctx.stat("filter_response_err", err)
         ctx.check(err <= RESP_TOL, "C18.filter_response",
                   lambda: f"frequency response of lp/hp differs from the (1 -) cosine taper between {b_lh} Hz by {err:.3g} "
